@@ -81,6 +81,10 @@ CLAIMED["C11"] = dict(engine="dsched+seqx", technique="stateless model checking 
          "insert/remove/update with 12 keys while <=4-5 timers are live, and all short operation suffixes from prefilled heaps of every size 0..40 (crossing every segment growth/shrink).",
     design_ref="DESIGN.md §4 C11, §5 C11", note=SC + " " + SEQ)
 
+_ds("C16", "Cancel at seven life-cycle points of DATA_ADD / timer / read / write sources with the manager thread, epoll and timerfd under the scheduler; oracle: no handler start after a cancel issued from the handler or from the "
+    "target queue returned (at most one after a cancel from another thread), cancellation handler exactly once, on the target queue, after the last handler invocation returned and with the descriptor already "
+    "removed from epoll (mirrored table), no handler after it; cancel_and_wait returns with nothing in progress and the descriptor removed. Signal sources are not covered (kernel signal delivery is not owned).", "DESIGN.md §4 C16")
+
 NOT_YET = {}
 
 def main():
